@@ -22,6 +22,7 @@ def main():
         from pyvc.world import load_world
         from pyvc import runner
         world = load_world()
+        world.tier = a.tier
         mod = importlib.import_module(f"props.{a.prop}")
         if a.replay:
             with open(a.replay) as f:
